@@ -97,7 +97,7 @@ const P0S: &[&str] = &["p :- q. p :- s.", "p :- t. t :- q. t :- s.", "p.", "p :-
 const P1: &[&str] = &[
     "p(X) :- q(X).", "p(X) :- q(X), not t(X). t(X) :- q(X), X = 0.", "p(X) :- t(X). t(X) :- q(X).", "{p(X)} :- q(X).", "p(X) :- q(X), X != 1.", "p(0) :- q(0). p(1) :- q(1).", "p(X) :- q(X), not t(X).",
     "p(X) :- q(X), t(X). t(0). t(1).", "p(X) :- q(X), not not q(X).", "p(X) :- q(X). :- q(X), not p(X).", "p(X) :- t(X). t(X) :- u(X). u(X) :- q(X).", "p(X) :- q(X), w. w :- q(0).",
-    "p(X) :- t(X).", "p(X) :- q(X), not u(X).", "p(X) :- t(X). t(X) :- q(X), not u(X).",
+    "p(X) :- t(X).", "p(X) :- q(X), not u(X).", "p(X) :- q(X), X = 0. p(X) :- q(X), X = 1.", ":- q(X), X > 0. p(X) :- q(X).", "p(X) :- q(X). :- p(1).", "p(X) :- q(X), X != a.", "p(X) :- q(X), X != a. p(X) :- q(X), X = a.", "p(X) :- t(X). t(X) :- q(X), not u(X).",
 ];
 const S0: &[&str] = &[
     "spec: p <-> q.", "spec(forward): q -> p. spec(backward): p -> q.", "spec(forward): p -> q. spec(backward): q -> p.", "spec: p or not p.", "assumption: q. spec: p.", "spec(forward): p <-> q.",
